@@ -208,7 +208,8 @@ class Writer:
             return ""
         if r < 0.55:
             return " "
-        return self.rng.choice(["\n", "\t", "  ", " # c <x> \"y\" .\n", "\r\n", "\n\n", " #\n", "\n  "])
+        # WS ::= #x20 | #x9 | #xD | #xA ; a comment runs to the next #xA or #xD
+        return self.rng.choice(["\n", "\t", "  ", " # c <x> \"y\" .\n", "\r\n", "\n\n", " #\n", "\n  ", "\r", " # c <x> .\r", "\r\r "])
 
     def kw(self, word):
         if word.startswith("@"):
@@ -367,7 +368,14 @@ def replay(cfg, events):
     for e in events:
         e = dict(e)
         op = e["op"]
-        if op == "spell_plan":
+        if op == "spell_plan" and e["fmt"] == "xml":
+            from .xml_spell import XmlWriter
+            xw = XmlWriter(e["seed"], e["plan"]["doc"])
+            text = xw.render()
+            e2 = {"op": "spell", "fmt": "xml", "routes_wanted": e["routes"], "family": e.get("family", "")}
+            do_spell(e2, text, xw.expected(e["plan"]["quads"], abst, e.get("ndt", 2)))
+            evs.append(e2)
+        elif op == "spell_plan":
             w = Writer(e["seed"], e["fmt"], e["plan"]["doc"])
             text = w.render()
             e2 = {"op": "spell", "fmt": e["fmt"], "routes_wanted": e["routes"], "family": e.get("family", "")}
